@@ -217,12 +217,12 @@ func runC28(p *core.Prog, r *core.Report) {
 	}
 }
 
-func runC30(p *core.Prog, r *core.Report) {
-	r.Explain = "Decides, as must-pass-through over every nil-error return: (R1) V2 session: the cached common check (FromProtoMessage, Validate, AuthenticateTokenV2 all nil) AND — outside the cache, on every request — Exp() not before chain time, ValidAt(chain time) and AssertVerb(request verb, request container); (R2) V1 session: cached common check (decode, Epoch()==nil, not ExpiredAt, ValidAt, AuthenticateToken==nil) and the per-request relation check (AssertContainer, object relation, verb); (R3) bearer: decode, Epoch()==nil, ValidAt, AuthenticateToken==nil; a cached failure is returned as failure; (R4) every token-check cache is keyed by the SHA-256 of the stable-marshalled whole token message; (R5) the epoch-based caches are purged by the node's new-epoch handler. Not covered: signature mathematics, boundary epochs/times, the SDK's Validate."
-	r1 := r.Rule("C30.R1", "session V2: nil error only after cached common check AND per-request lifetime (chain time) and verb/container assertion", 7)
+// sessionV2PerRequestRule: VerifySessionTokenMessage returns nil only after the cached common check and the
+// per-request lifetime (chain time) and verb/container assertions. Shared by C30.R1 and C29.R6.
+func sessionV2PerRequestRule(p *core.Prog, r *core.Report, r1 *core.RuleH) {
 	v2fn := p.Func(aclV2 + ".VerifySessionTokenMessage")
 	if v2fn == nil {
-		r.Fatalf("C30.R1: VerifySessionTokenMessage not found")
+		r.Fatalf("%s: VerifySessionTokenMessage not found", r1.ID())
 	} else {
 		core.CheckSuccessFn(p, r1, v2fn, core.SuccessRule{ResultIdx: -1, MinReturns: 1, Guards: []core.Guard{
 			core.G("common-check", core.ErrNil, "(*internal/sessions.ObjectSessionsCache).AuthenticateTokenV2"),
@@ -236,6 +236,12 @@ func runC30(p *core.Prog, r *core.Report) {
 			}, Comps: []core.Comp{{Result: -1, Kind: core.IsTrue}}},
 		}})
 	}
+}
+
+func runC30(p *core.Prog, r *core.Report) {
+	r.Explain = "Decides, as must-pass-through over every nil-error return: (R1) V2 session: the cached common check (FromProtoMessage, Validate, AuthenticateTokenV2 all nil) AND — outside the cache, on every request — Exp() not before chain time, ValidAt(chain time) and AssertVerb(request verb, request container); (R2) V1 session: cached common check (decode, Epoch()==nil, not ExpiredAt, ValidAt, AuthenticateToken==nil) and the per-request relation check (AssertContainer, object relation, verb); (R3) bearer: decode, Epoch()==nil, ValidAt, AuthenticateToken==nil; a cached failure is returned as failure; (R4) every token-check cache is keyed by the SHA-256 of the stable-marshalled whole token message; (R5) the epoch-based caches are purged by the node's new-epoch handler; (R6) what the session caches store under a token's digest is a function of that token: the on-miss callbacks capture only the hashed token and services, and nothing in the cached part of the V2 check (whose lifetime is wall-clock while the cache lives for an epoch) reads a clock. Not covered: signature mathematics, boundary epochs/times, the SDK's Validate."
+	r1 := r.Rule("C30.R1", "session V2: nil error only after cached common check AND per-request lifetime (chain time) and verb/container assertion", 7)
+	sessionV2PerRequestRule(p, r, r1)
 	core.CheckSuccess(p, r1, core.SuccessRule{Fn: aclV2 + ".decodeAndVerifySessionTokenV2Common", ResultIdx: -1, MinReturns: 1, Guards: []core.Guard{
 		{Name: "decoded", Match: func(s core.Site) bool { return strings.HasSuffix(s.Name, "session/v2.Token).FromProtoMessage") }, Comps: []core.Comp{{Result: -1, Kind: core.ErrNil}}},
 		{Name: "validated", Match: func(s core.Site) bool { return strings.HasSuffix(s.Name, "session/v2.Token).Validate") }, Comps: []core.Comp{{Result: -1, Kind: core.ErrNil}}},
@@ -335,6 +341,11 @@ func runC30(p *core.Prog, r *core.Report) {
 			}
 		}
 		r4.Check(ok, name+"#cache-key", p.Pos(fn.Pos()), "cache key = sha256(MarshalStable(token))", "the token check cache is not keyed by the digest of the whole marshalled token")
+	}
+	// ---- R6 what is cached is a function of the key
+	r6 := r.Rule("C30.R6", "the verdict cached under a token's digest depends on that token only: on-miss callbacks capture the token and services, and the cached part of the V2 check reads no clock", 5)
+	if n := sessionCacheOnMissPurity(p, r6, p.FuncsIn("pkg/services/object/acl/v2")); n < 2 {
+		r.Fatalf("C30.R6: expected 2 sessions-cache call sites in acl/v2, found %d", n)
 	}
 	// ---- R5 purge wiring
 	r5 := r.Rule("C30.R5", "the epoch-based token-check caches are purged from the node's new-epoch handler", 2)
